@@ -18,8 +18,8 @@ CONSTANTS
   FnOwn = 0
   BFn = 4
   EmitAllUpTo = 0
-  Sel = 120
-  CondSel = 6
+  Sel = 160
+  CondSel = 12
   KeepGoing = TRUE
 INVARIANT Inv
 CHECK_DEADLOCK FALSE
